@@ -147,15 +147,20 @@ CloneFrom(g, h) ==
   /\ pend' = [pend EXCEPT ![g] = IF CloneCopiesFlag THEN pend[h] ELSE ClonePend]
   /\ UNCHANGED <<alive, handed, dup, ntok>>
 
-(* set_rounds(r) - like every call that is not an output call - hands out nothing and leaves every claim, *)
-(* in particular a pending half, exactly as it is: a named stuttering step, so that the transition cover *)
-(* executes it in every state of the hand-out machine                                                    *)
-SetRounds(g) == g \in alive /\ UNCHANGED vars
+(* A call that is not an output call - set_rounds(r), timer_stats(..), test_timer() - hands out nothing   *)
+(* and leaves every claim, in particular a pending half, exactly as it is: named stuttering steps, so    *)
+(* that the transition cover executes each of them in every state of the hand-out machine.               *)
+(* (timer_stats and test_timer do stir the pool; which bits the owed half then consists of is the        *)
+(* business of the concrete model in Trace_Jitter, not of the token machine.)                            *)
+NonOutput(g) == g \in alive /\ UNCHANGED vars
+SetRounds(g) == NonOutput(g)
+TimerStats(g) == NonOutput(g)
+TestTimer(g) == NonOutput(g)
 
 Init == /\ alive = {CHOOSE g \in Inst : \A h \in Inst : g <= h}
         /\ tok = [g \in Inst |-> 0] /\ pend = [g \in Inst |-> FALSE]
         /\ handed = {} /\ dup = FALSE /\ ntok = 0
-Next == \E g \in Inst : \/ NextU32(g) \/ NextU64(g) \/ SetRounds(g)
+Next == \E g \in Inst : \/ NextU32(g) \/ NextU64(g) \/ SetRounds(g) \/ TimerStats(g) \/ TestTimer(g)
                         \/ \E n \in FillLens : Fill(g, n)
                         \/ \E h \in Inst : Clone(g, h) \/ CloneFrom(g, h)
 Spec == Init /\ [][Next]_vars
